@@ -120,17 +120,20 @@ Definition class_close (a : class_result) (b : class_obs) : bool :=
 Definition check_daily_class (c : bool * inferred * list reading * list Z * class_obs) : bool :=
   let '(elec, inf, rows, bs, e) := c in class_close (daily_class elec inf rows bs) e.
 
-Definition check_billing_class (c : bool * inferred * list reading * list Z * class_obs) : bool :=
-  let '(elec, inf, rows, bs, e) := c in class_close (billing_class elec inf rows bs) e.
+(* UTC offsets given as (stamp, offset) pairs *)
+Definition offsets (l : list (int * int)) : list (Z * Z) := map (fun p => (zi (fst p), zi (snd p) - 1440)) l.
 
-Definition check_clean_billing (c : gran * list reading * list reading) : bool :=
-  let '(g, rs, e) := c in list_eqb2 reading_close (clean_billing g rs) e.
+Definition check_billing_class (c : bool * list (Z * Z) * bool * inferred * list reading * list Z * class_obs) : bool :=
+  let '(cal, offs, elec, inf, rows, bs, e) := c in class_close (billing_class cal offs elec inf rows bs) e.
+
+Definition check_clean_billing (c : bool * list (Z * Z) * gran * list reading * list reading) : bool :=
+  let '(cal, offs, g, rs, e) := c in list_eqb2 reading_close (clean_billing cal offs g rs) e.
 
 Definition brows (l : list (int * qv * bool)) : list brow :=
   map (fun p => (zi (fst (fst p)), qv_to (snd (fst p)), snd p)) l.
 
-Definition check_clean_billing_est (c : gran * list brow * option (list reading)) : bool :=
-  let '(g, rows, e) := c in opt_eqb (list_eqb2 reading_close) (clean_billing_est g rows) e.
+Definition check_clean_billing_est (c : bool * list (Z * Z) * gran * list brow * option (list reading)) : bool :=
+  let '(cal, offs, g, rows, e) := c in opt_eqb (list_eqb2 reading_close) (clean_billing_est cal offs g rows) e.
 
 (* lemma minute_grid_eq, executed: the literal 1-minute materialisation against the interval formula *)
 Definition check_grid (c : list reading * int * int) : bool :=
